@@ -957,3 +957,116 @@ pub fn distinct_literals(n: usize, decimal: bool) -> BoxedStrategy<Vec<String>> 
         })
         .boxed()
 }
+
+// ------------------------------------------------------------------------------------------
+// unicode table keys (Rules/**/unicode*.yaml), parsed textually
+
+pub fn unicode_keys(path: &str) -> Vec<char> {
+    let Ok(text) = std::fs::read_to_string(path) else { return vec![] };
+    let re = regex::Regex::new(r#"^\s*-\s*"((?:[^"\\]|\\.)*)"\s*:"#).unwrap();
+    let mut out = vec![];
+    for line in text.lines() {
+        if let Some(c) = re.captures(line) {
+            let key = unescape_yaml(&c[1]);
+            let chars: Vec<char> = key.chars().collect();
+            if chars.len() == 1 {
+                out.push(chars[0]);
+            } else if chars.len() == 3 && chars[1] == '-' && chars[0] < chars[2] {
+                let (a, b) = (chars[0] as u32, chars[2] as u32);
+                if b - a < 2000 {
+                    for cp in a..=b {
+                        if let Some(ch) = char::from_u32(cp) {
+                            out.push(ch);
+                        }
+                    }
+                }
+            }
+        }
+    }
+    out.sort();
+    out.dedup();
+    out
+}
+
+fn unescape_yaml(s: &str) -> String {
+    let mut o = String::new();
+    let mut it = s.chars().peekable();
+    while let Some(c) = it.next() {
+        if c != '\\' {
+            o.push(c);
+            continue;
+        }
+        match it.next() {
+            Some('u') => {
+                let hex: String = it.by_ref().take(4).collect();
+                if let Some(ch) = u32::from_str_radix(&hex, 16).ok().and_then(char::from_u32) {
+                    o.push(ch);
+                }
+            }
+            Some('U') => {
+                let hex: String = it.by_ref().take(8).collect();
+                if let Some(ch) = u32::from_str_radix(&hex, 16).ok().and_then(char::from_u32) {
+                    o.push(ch);
+                }
+            }
+            Some('x') => {
+                let hex: String = it.by_ref().take(2).collect();
+                if let Some(ch) = u32::from_str_radix(&hex, 16).ok().and_then(char::from_u32) {
+                    o.push(ch);
+                }
+            }
+            Some('n') => o.push('\n'),
+            Some('t') => o.push('\t'),
+            Some(other) => o.push(other),
+            None => {}
+        }
+    }
+    o
+}
+
+/// (short-table keys, keys only in the full table) of a language (falls back to its parent directory)
+pub fn language_char_pools(lang: &str) -> (Vec<char>, Vec<char>) {
+    static CACHE: OnceLock<std::sync::Mutex<std::collections::HashMap<String, (Vec<char>, Vec<char>)>>> = OnceLock::new();
+    let cache = CACHE.get_or_init(|| std::sync::Mutex::new(std::collections::HashMap::new()));
+    if let Some(v) = cache.lock().unwrap().get(lang) {
+        return v.clone();
+    }
+    let v = language_char_pools_uncached(lang);
+    cache.lock().unwrap().insert(lang.to_string(), v.clone());
+    v
+}
+
+fn language_char_pools_uncached(lang: &str) -> (Vec<char>, Vec<char>) {
+    let dir = lang.replace('-', "/");
+    let base = format!("/repo/Rules/Languages/{}", dir);
+    let parent = format!("/repo/Rules/Languages/{}", lang.split('-').next().unwrap_or("en"));
+    let pick = |name: &str| {
+        let p = format!("{}/{}", base, name);
+        if std::path::Path::new(&p).exists() {
+            p
+        } else {
+            format!("{}/{}", parent, name)
+        }
+    };
+    let short = unicode_keys(&pick("unicode.yaml"));
+    let full: Vec<char> = unicode_keys(&pick("unicode-full.yaml")).into_iter().filter(|c| !short.contains(c)).collect();
+    (short, full)
+}
+
+pub fn braille_char_pools(code: &str) -> (Vec<char>, Vec<char>) {
+    static CACHE: OnceLock<std::sync::Mutex<std::collections::HashMap<String, (Vec<char>, Vec<char>)>>> = OnceLock::new();
+    let cache = CACHE.get_or_init(|| std::sync::Mutex::new(std::collections::HashMap::new()));
+    if let Some(v) = cache.lock().unwrap().get(code) {
+        return v.clone();
+    }
+    let v = braille_char_pools_uncached(code);
+    cache.lock().unwrap().insert(code.to_string(), v.clone());
+    v
+}
+
+fn braille_char_pools_uncached(code: &str) -> (Vec<char>, Vec<char>) {
+    let base = format!("/repo/Rules/Braille/{}", code);
+    let short = unicode_keys(&format!("{}/unicode.yaml", base));
+    let full: Vec<char> = unicode_keys(&format!("{}/unicode-full.yaml", base)).into_iter().filter(|c| !short.contains(c)).collect();
+    (short, full)
+}
